@@ -45,6 +45,23 @@ CHECKS = {
         'own (shallow) size only; sys.getsizeof and tracemalloc are trusted; '
         'size predictions use CPython 3.12 object sizes with 2x slack',
         'DESIGN.md section 2, C08'),
+    'C10': (
+        'Hypothesis-generated host documents (round trip) and nested '
+        'value-kind expressions under the 4 output-option pairs; type census '
+        'of the finalised result; unfinalised second evaluation as the '
+        'success oracle',
+        'Generated-input search: documents of depth <=3 with tuples, sets, '
+        'frozensets, generators and iterators substituted must round-trip '
+        'through $ into canonical containers; 53 atoms x 22 wrappers '
+        '(complete single-wrapper grid, Hypothesis for deeper nesting) '
+        'covering every lazy/frozen value kind as element, dict value, dict '
+        'key and set member; whenever the evaluation succeeds with '
+        'yaql.convertOutputData off the finalised evaluation must succeed and '
+        'contain only dict/list/(tuple)/(set)/scalars; YaqlInterface calls '
+        'get the same census. Two structural classes (container as dict key, '
+        'container in an output set) are a recorded known finding.',
+        'walking the unfinalised value consumes iterators, so each case is '
+        'evaluated twice from fresh data', 'DESIGN.md section 2, C10'),
     'C15': (
         'exhaustive all-pairs enumeration of a boundary corpus under every '
         'scalar operator against a reference model, law checks through yaql, '
